@@ -245,8 +245,9 @@ def evaluate_expression(expr, options=None, locals_=None, builtins=True):
                     raise
 
                 # Log and return null
-                if options is not None and 'logFn' in options and options.get('debug'):
-                    options['logFn'](f'BareScript: Function "{func_name}" failed with error: {error}')
+                log_fn = options.get('logFn') if options is not None and options.get('debug') else None
+                if log_fn is not None:
+                    log_fn(f'BareScript: Function "{func_name}" failed with error: {error}')
                 if isinstance(error, ValueArgsError):
                     return error.return_value
                 return None
